@@ -5,6 +5,7 @@ git -C /repo worktree remove --force $wt 2>/dev/null
 git -C /repo worktree add --detach $wt HEAD >/dev/null 2>&1 || exit 2
 for d in /verif/seeded/*/; do
   id=$(basename $d); prop=${id:0:3}
+  if grep -q '"neutralised_by"' $d/meta.json 2>/dev/null; then echo "== $id skipped: neutralised by a later fix (see meta.json)"; continue; fi
   /verif/harness/mutant_wt.sh $wt $d/patch.diff $prop
 done
 git -C /repo worktree remove --force $wt
